@@ -306,7 +306,7 @@ def run(ctx):
     stats = new_stats()
     rng = ctx.rng(1)
     blocks, pending, grids = [], {}, []
-    for cid in range(ctx.n(45, 1000)):
+    for cid in range(ctx.n(45, 500)):
         one_case(rng, res, stats, blocks, pending, grids, cid)
     c02.compare_with_model(res, stats, blocks, pending)
     grid_correspondence(res, stats, grids)
